@@ -676,8 +676,28 @@ impl TypeChecker {
             }
         }
 
+        // Plain call of a declared (non-generic) function: arguments are checked against the parameter types,
+        // like method-call arguments are.
+        let fn_params: Option<Vec<(String, ResolvedType)>> = if let Expr::Ident(name) = &callee.node {
+            self.symbols
+                .lookup(name)
+                .and_then(|id| self.symbols.get(id))
+                .and_then(|sym| match &sym.kind {
+                    SymbolKind::Function(info) if info.type_params.is_empty() => Some(info.params.clone()),
+                    _ => None,
+                })
+        } else {
+            None
+        };
+
         let callee_ty = self.check_expr(callee);
-        self.check_call_args(args);
+        match fn_params {
+            Some(params) => {
+                let arg_types = self.check_call_arg_types(args);
+                self.validate_method_call_args(&params, args, &arg_types);
+            }
+            None => self.check_call_args(args),
+        }
 
         match callee_ty {
             ResolvedType::Function(_, ret) => *ret,
